@@ -205,8 +205,51 @@ def _materialise_property_factories(tree):
     return tree
 
 
+class _N5(ast.NodeTransformer):
+    """N5: a loop over a literal tuple of tuples whose loop variable is *called* in the body (`for add, table in ((e.add_a, A), (e.add_b, B)):
+    ... add(k, v)`) is a statement list written as data: it is unrolled, so that every engine sees `e.add_a(k, v)` on the element
+    it is called on (freshness, effects and types are decided per receiver)."""
+
+    def visit_FunctionDef(self, fn):
+        self.generic_visit(fn)
+        from .desugar import _D, literal_bindings
+
+        def called_targets(lp):
+            names = {x.id for x in ast.walk(lp.target) if isinstance(x, ast.Name)}
+            return any(isinstance(c, ast.Call) and isinstance(c.func, ast.Name) and c.func.id in names for b in lp.body for c in ast.walk(b))
+
+        class U(ast.NodeTransformer):
+            def _blk(self_, stmts):
+                out = []
+                for st in stmts:
+                    for fld in ("body", "orelse", "finalbody"):
+                        b = getattr(st, fld, None)
+                        if isinstance(b, list) and b and isinstance(b[0], ast.stmt) and not isinstance(st, (ast.FunctionDef, ast.AsyncFunctionDef, ast.ClassDef)):
+                            setattr(st, fld, self_._blk(b))
+                    for h in getattr(st, "handlers", []) or []:
+                        h.body = self_._blk(h.body)
+                    if isinstance(st, ast.For) and isinstance(st.iter, (ast.Tuple, ast.List)) and not st.orelse and called_targets(st):
+                        d = _D()
+                        d.lits, d.gens = literal_bindings(fn), {}
+                        r = d.visit_For(st)
+                        if isinstance(r, list):
+                            out.extend(r)
+                            continue
+                        st = r
+                    out.append(st)
+                return out
+
+        fn.body = U()._blk(fn.body)
+        return fn
+
+    visit_AsyncFunctionDef = visit_FunctionDef
+
+
 def normalise(tree):
     if os.environ.get("VERIF_NO_NORMALISE"):
         return tree
     tree = _materialise_property_factories(tree)
-    return _N().visit(tree)
+    tree = _N().visit(tree)
+    tree = _N5().visit(tree)
+    ast.fix_missing_locations(tree)
+    return tree
